@@ -45,6 +45,24 @@ def mixed_order_triple(rng, tries=400):
     return None
 
 
+def small_order_R_triple(rng, ph, ctx, tries=400):
+    """(A', msg, sig): mixed-order key A' = [a]B + T, R' a NON-IDENTITY small-order point, S = k a, satisfying the cofactorless
+    equation: accepted by the ordinary verifier, and exactly what the strict verifier exists to reject"""
+    seed = le(rng.getrandbits(256))
+    a, _ = pyed.expand(seed)
+    A = pyed.mul(a % L, pyed.B)
+    for _ in range(tries):
+        T = pyed.mul(rng.randrange(1, 8), pyed.T8)
+        A2 = pyed.add(A, T)
+        msg = [rng.randrange(256) for _ in range(6)]
+        for t2 in range(1, 8):
+            R2 = pyed.mul(t2, pyed.T8)
+            k = pyed.challenge(pyed.compress(R2), pyed.compress(A2), msg, ph, bytes(ctx))
+            if pyed.neg(pyed.mul(k % 8, T)) == R2:             # [S]B - [k]A' = -[k]T
+                return pyed.compress(A2), msg, pyed.compress(R2) + le(k * a % L)
+    return None
+
+
 def gen(rng, quick):
     ops = [{"op": "info"}]
     tors = torsion_encodings()
@@ -57,6 +75,19 @@ def gen(rng, quick):
     for S2 in [S + L, S + 2 * L, S + 4 * L, S + 8 * L, S + 15 * L, L, L - 1, 2**253 - 1, (S % 2**253) + 2**253, S + 2**255, 2**256 - 1, 0, 1]:
         if 0 <= S2 < 2**256:
             ops.append({"op": "sig.verify", "in": [pk, msg, R + le(S2), []]})
+    # 1b. honest signatures whose S is small, so that S + l, S + 2l ... have few high bits set: a range check that looks
+    #     only at the top byte / top bits of S must still reject them (S + l < 2^252 + 2^248 here)
+    for bound in (2**248, 2**250, 2**251):
+        for t in range(400):
+            m2 = [t % 256, t // 256, bound.bit_length() % 256]
+            sg = list(pyed.sign(seed, m2))
+            s0 = from_le(sg[32:])
+            if s0 < bound - 2**200:
+                for kmul in (1, 2, 3, 7):
+                    if s0 + kmul * L < 2**256:
+                        ops.append({"op": "sig.verify", "in": [pk, m2, sg[:32] + le(s0 + kmul * L), []], "small_s": True})
+                ops.append({"op": "sig.verify", "in": [pk, m2, sg, []]})
+                break
     # 2. non-canonical / alternative encodings of R for an honest signature
     for R2 in [R[:31] + [R[31] ^ 0x80], le((from_le(R) & (2**255 - 1)) + P if (from_le(R) & (2**255 - 1)) < 19 else from_le(R))]:
         ops.append({"op": "sig.verify", "in": [pk, msg, R2 + sig[32:], []]})
@@ -78,6 +109,11 @@ def gen(rng, quick):
             A2, m2, s2 = t
             ops.append({"op": "sig.verify", "in": [A2, m2, s2, []], "mixed": True})
             ops.append({"op": "sig.verify", "in": [A2, m2, s2[:32] + le(from_le(s2[32:]) + L), []]})
+    # 4b. small-order non-identity R with a mixed-order key, pure and prehashed: ordinary accepts, strict must reject
+    for ph, cx in ((False, []), (True, [7, 7]), (True, [])) * (1 if quick else 4):
+        t = small_order_R_triple(rng, ph, cx)
+        if t:
+            ops.append({"op": "sig.verify", "in": [t[0], t[1], t[2], cx], "small_R": True})
     # 5. honest signatures with one bit flipped in each field (pure and prehashed)
     ctx = [4, 5]
     sigph = list(pyed.sign(seed, msg, True, bytes(ctx)))
